@@ -1,6 +1,6 @@
 (** C10 — timeout toxic black-holes data and closes after exactly the configured time. *)
 From TP Require Import Model.Prelude Extracted Model.Toxics Model.Timed Proofs.StageContract
-     Proofs.StageRun Proofs.StageFeed Proofs.TimingProofs.
+     Proofs.StageRun Proofs.StageFeed Proofs.TimingProofs Model.ReconfRun Proofs.ReconfRunProofs.
 
 (** while a timeout stage runs, nothing is forwarded, whatever arrives and whenever *)
 Theorem C10_blackhole : forall t fuel arr ps s,
@@ -151,3 +151,17 @@ Theorem C10_cut : forall k l a l',
   below k l' = below k l /\ Forall stub_ok (skipn k (l_stubs l')) /\ length (l_stubs l') = length (l_stubs l).
 Proof. exact cut_step. Qed.
 Print Assumptions C10_cut.
+
+(** a timeout toxic that is added reaches every connection whose last stub is not closed, however
+    long that stage is busy handing data on: AddToxic gives up on a link only when that stub is
+    closed, and connects and starts the new stage only after the interrupt succeeded (regenerated
+    shape of ToxicLink.AddToxic and ToxicStub.InterruptToxic) *)
+Theorem C10_add_gives_up_only_on_closed : forall l p w,
+  ReconfRun.interrupt_try l p w = ReconfRun.IFalse -> exists s, nth_error (l_stubs l) p = Some s /\ s_closed s = true /\ w = false.
+Proof. exact ReconfRunProofs.interrupt_gives_up_only_on_closed. Qed.
+Print Assumptions C10_add_gives_up_only_on_closed.
+
+Theorem C10_add_code_facts :
+  interrupt_is_unbounded = true /\ ops_use_plain_interrupt = true /\ add_connects_after_interrupt = true.
+Proof. repeat split; reflexivity. Qed.
+Print Assumptions C10_add_code_facts.
